@@ -15,7 +15,7 @@ open Cnfgen Cnfgen.Fam Cnfgen.FamIter
 theorem litHolds_pos (α : Assign) (n : Nat) (h : 1 ≤ n) : litHolds α (n : Int) = α n := by
   simp [litHolds]; omega
 
-theorem litHolds_negc (α : Assign) (n : Nat) (h : 1 ≤ n) : litHolds α (-(n : Int)) = !α n := by
+theorem litHolds_negc (α : Assign) (n : Nat) (_h : 1 ≤ n) : litHolds α (-(n : Int)) = !α n := by
   simp [litHolds]
 
 theorem holds_iff (α : Assign) (F : Formula) : F.holds α = true ↔ ∀ c ∈ F.cons, c.holds α = true := by
